@@ -116,7 +116,10 @@ func specFilter(which, fstr string, e Entry, myUid, myGid uint32) (Entry, bool, 
 	}
 	switch kv["setid"] {
 	case "reject":
-		if e.Perms&06000 != 0 {
+		// an offending entry is one that would carry the bits: a symlink has no mode of its own (lstat of one placed on any
+		// file system shows 0777, a cache shelf cannot show more), so on unpack the bits an archive header claims for one
+		// offend nothing — and a verdict that counted them could not be the same on a cold and on a warm cache
+		if e.Perms&06000 != 0 && !(which == "unpack" && e.Kind == 'L') {
 			return e, true, false
 		}
 	case "ignore":
